@@ -20,7 +20,7 @@ def run(ctx):
     run_structure(ctx, "C07", PROP_FILES, FLAVOURS, 2000 if quick else 12000, 4 if quick else 5, 0, nontrivial)
     ctx.cov["rule"] = ("seeded generator: real trees of names (extensions, dotfiles, `foo.`, `..x`, multi-dot, non-ASCII, spaces) x [structure] configurations with global allow or deny lists "
                        "(extensions, file-name patterns, path patterns, directory-only patterns, deny_dirs), 0-4 rules with overlapping scopes carrying allow/deny lists, naming regexes, "
-                       "directed and group sibling rules (member and companion templates with a path separator such as __tests__/{stem}.test.tsx, with complete, incomplete and orphan groups; later rules whose scope overlaps a rule with sibling entries), count_exclude / scanner.exclude / command-line -x, name lists whose literal head coincides with the start of the path (t*, t*.rs), requests of several scan roots (22%); run through the library pipeline with both back-ends, every 4th also through `sgcli check` + `explain`; 1500 arbitrary scan-root requests through resolve_scan_paths; the trees of 40 cases with directory name lists as projects of their own under four spellings of the project root. "
+                       "directed and group sibling rules (member and companion templates with a path separator such as __tests__/{stem}.test.tsx, with complete, incomplete and orphan groups; later rules whose scope overlaps a rule with sibling entries; scopes written with a trailing separator, which match no directory at any site), count_exclude / scanner.exclude / command-line -x, name lists whose literal head coincides with the start of the path (t*, t*.rs), requests of several scan roots (22%); run through the library pipeline with both back-ends, every 4th also through `sgcli check` + `explain`; 1500 arbitrary scan-root requests through resolve_scan_paths; the trees of 40 cases with directory name lists as projects of their own under four spellings of the project root. "
                        "non-trivial = distinct case with at least one placement list or sibling rule AND at least one placement/sibling violation reported")
     ctx.cov["trusted_base"] = TRUSTED_COMMON + [
         "oracle columns: every glob / regex answer (per list, per name and per path) is computed by sgv-structure with the real compiled objects and handed to the model as data",
